@@ -18,7 +18,8 @@ type Cell struct {
 	v    Value
 	kids []*Cell
 	born int32
-	rel  bool // the object was handed back to a sync.Pool and not taken out again
+	seq  int32 // allocation order within the engine run (for vPar: did the object exist before the two calls?)
+	rel  bool  // the object was handed back to a sync.Pool and not taken out again
 	t    types.Type
 }
 
@@ -60,6 +61,7 @@ type mapEntry struct {
 type MapObj struct {
 	entries []mapEntry
 	born    int32
+	seq     int32
 	kt, vt  types.Type
 }
 
@@ -241,7 +243,8 @@ func zeroValue(t types.Type) Value {
 }
 
 func (in *Interp) newCell(t types.Type) *Cell {
-	c := &Cell{born: in.epoch, t: t}
+	in.allocSeq++
+	c := &Cell{born: in.epoch, seq: in.allocSeq, t: t}
 	if isReflectValue(t) {
 		c.v = RVal{}
 		return c
@@ -263,7 +266,7 @@ func (in *Interp) newCell(t types.Type) *Cell {
 			z := zeroValue(et)
 			block := make([]Cell, n)
 			for i := range c.kids {
-				block[i] = Cell{v: z, born: in.epoch, t: et}
+				block[i] = Cell{v: z, born: in.epoch, seq: in.allocSeq, t: et}
 				c.kids[i] = &block[i]
 			}
 		} else {
@@ -348,6 +351,9 @@ func (in *Interp) storeCell(c *Cell, v Value) {
 	}
 	if c.rel {
 		in.usedAfterPut(c)
+	}
+	if in.parBranch > 0 && c.born == in.epoch && c.seq <= in.parBoundary && in.lockDepth == 0 {
+		in.parWrites[in.parBranch-1][c] = typeString(c.t)
 	}
 	if c.born < in.epoch {
 		in.undo = append(in.undo, undoRec{c: c, old: c.v})
